@@ -333,6 +333,14 @@ func c02RxGen(r *Rand, tier string) []string {
 		{`(ab|a)(bc|c|b)`, "abc"},
 		{`x*`, "aaa"},
 		{`(a{1,2}){2}`, "aaa"},
+		// POSIX syntax: a repetition of a repetition is allowed
+		{`a+*b`, "caab"},
+		{`a{2}{3}`, "aaaaaaa"},
+		{`(a{2}){2}{2}|a`, "aaaaaaaaa"},
+		{`[ab]+?c`, "abc c"},
+		{`a{2}+`, "aaaaa"},
+		{`[[:alpha:]]+[[:^alpha:]]`, "12ab3"},
+		{`[]a]+`, "x]a]"},
 	} {
 		out = append(out, fmt.Sprintf("rx 1 %s %s", HexS(f.pat), HexS(f.line)))
 	}
